@@ -61,15 +61,17 @@ func composite(t reflect.Type) bool {
 // shapeAll sets every leaf slice / map in v to nil (mode "nil") or to empty non-nil
 // ("empty"); a slice or map whose elements themselves contain slices or maps keeps exactly
 // one element (shaped recursively), so that nested leaves are reached too.
-func shapeAll(v reflect.Value, empty bool) {
+func shapeAll(r *hx.Rand, v reflect.Value, empty bool) {
 	switch v.Kind() {
 	case reflect.Slice:
 		if composite(v.Type().Elem()) {
 			s := reflect.MakeSlice(v.Type(), 1, 1)
 			if v.Len() > 0 {
 				s.Index(0).Set(v.Index(0))
+			} else {
+				jm.Fill(r, s.Index(0), jm.Opts{}) // a well-formed element (e.g. an initialised lruset.Set)
 			}
-			shapeAll(s.Index(0), empty)
+			shapeAll(r, s.Index(0), empty)
 			v.Set(s)
 			return
 		}
@@ -86,8 +88,10 @@ func shapeAll(v reflect.Value, empty bool) {
 			if it := v.MapRange(); v.Len() > 0 && it.Next() {
 				key.Set(it.Key())
 				val.Set(it.Value())
+			} else {
+				jm.Fill(r, val, jm.Opts{})
 			}
-			shapeAll(val, empty)
+			shapeAll(r, val, empty)
 			m.SetMapIndex(key, val)
 			v.Set(m)
 			return
@@ -99,7 +103,7 @@ func shapeAll(v reflect.Value, empty bool) {
 		}
 	case reflect.Array:
 		for i := 0; i < v.Len(); i++ {
-			shapeAll(v.Index(i), empty)
+			shapeAll(r, v.Index(i), empty)
 		}
 	case reflect.Struct:
 		for i := 0; i < v.NumField(); i++ {
@@ -110,7 +114,7 @@ func shapeAll(v reflect.Value, empty bool) {
 			if !f.CanSet() {
 				continue // private parts of the containers keep their generated shape
 			}
-			shapeAll(f, empty)
+			shapeAll(r, f, empty)
 		}
 	}
 }
@@ -152,7 +156,7 @@ func makeValue(e *libtypes.Entry, in input) reflect.Value {
 		return reflect.New(e.Type).Elem()
 	case "empty", "nil":
 		v := jm.Rand(r, e.Type, jm.Opts{})
-		shapeAll(v, in.Mode == "empty")
+		shapeAll(r, v, in.Mode == "empty")
 		return v
 	case "badutf8":
 		return jm.Rand(r, e.Type, jm.Opts{InvalidUTF8: true})
